@@ -185,6 +185,9 @@ func (s *simStream) Send(req *tikvpb.BatchCommandsRequest) error {
 		it.id = id
 		if i < len(in.Requests) {
 			it.tag, it.kind = requestTag(in.Requests[i])
+			if it.kind == "resolve" {
+				w.sim.Count("reach.resolve-requests-on-the-wire")
+			}
 		}
 		items = append(items, it)
 	}
@@ -278,6 +281,8 @@ func requestTag(r *tikvpb.BatchCommandsRequest_Request) (tag, kind string) {
 		return "", "batchget"
 	case *tikvpb.BatchCommandsRequest_Request_RawGet:
 		return string(c.RawGet.GetKey()), "rawget"
+	case *tikvpb.BatchCommandsRequest_Request_ResolveLock:
+		return resolveTag(c.ResolveLock.GetContext().GetRegionId(), c.ResolveLock.GetStartVersion()), "resolve"
 	}
 	return "", "other"
 }
@@ -289,6 +294,9 @@ func makeResponse(o outResp) *tikvpb.BatchCommandsResponse_Response {
 	case "batchget":
 		return &tikvpb.BatchCommandsResponse_Response{Cmd: &tikvpb.BatchCommandsResponse_Response_BatchGet{
 			BatchGet: &kvrpcpb.BatchGetResponse{Pairs: []*kvrpcpb.KvPair{{Key: []byte(o.tag), Value: []byte(o.val)}}}}}
+	case "resolve":
+		return &tikvpb.BatchCommandsResponse_Response{Cmd: &tikvpb.BatchCommandsResponse_Response_ResolveLock{
+			ResolveLock: &kvrpcpb.ResolveLockResponse{Error: &kvrpcpb.KeyError{Abort: o.val}}}}
 	case "rawget":
 		return &tikvpb.BatchCommandsResponse_Response{Cmd: &tikvpb.BatchCommandsResponse_Response_RawGet{
 			RawGet: &kvrpcpb.RawGetResponse{Value: []byte(o.val)}}}
